@@ -847,6 +847,9 @@ func (loc *Location) SetParents(ctx *Context, parents []string) (string, error) 
 		Log(WARN, ctx, "Location.SetParents", "location", loc.Name)
 		return "", fmt.Errorf("Location is disabled.")
 	}
+	if err := loc.CheckWrite(ctx); err != nil {
+		return "", err
+	}
 
 	Metric(ctx, "SetParents", "location", loc.Name)
 
